@@ -13,6 +13,20 @@ of the query language, non-ASCII and normalisation twins, SPARQL/regex/format me
 stripped/case-folded twins; every requested value - hit, twin of a hit, absent twin - must select exactly the nodes
 carrying exactly that text, in the string and the dictionary form and in match and fuzzy mode.
 
+Both also run over the *value-form dimension* (FORM_FAMILIES): the content that is not text - Property.uncertainty,
+Document.date, the values of int/float/boolean/date Properties - in all the forms it can take: floats whose
+shortest form uses exponent notation (below 1e-4, from 1e16 on, smallest/largest double), negative zero, inf/nan,
+integer valued floats next to the same integer, integers beyond 64 bit, an uncertainty handed over as text (with
+sign, leading zeros, surrounding blanks, exponent, not a number at all; through the constructor and through the
+setter), booleans next to the integers 0/1 and the texts true/True/yes, the first and the last date, dates next to
+datetimes, times and texts that begin alike. A node carries the lexical form its content has in the export (texts
+verbatim, repr of a float, decimal digits of an int, true/false, ISO 8601; read back from the graph with rdflib -
+a different form found there is adopted, not flagged). Requested are: every carried form, other spellings of the
+same content that nobody carries (misses), both as text in the string and the dictionary way and - the carried
+ones - as the Python object itself in the dictionary; alone, with further attributes of the node, across kinds,
+several values of one Property; QueryCreator, FuzzyFinder match mode (also with the id, also with value:[..]) and
+FuzzyFinder fuzzy mode (uncertainty/date/id as attributes, the forms as terms).
+
 The oracle is an evaluation on the odml objects (private fields); predicate names are spelled out here and
 not taken from odml.format.
 """
@@ -55,12 +69,38 @@ ABSENT = 'zz-absent'
 
 
 def as_text(v):
-    """The text a user would write for an attribute value."""
+    """The text a user would write for an attribute value = the lexical form an RDF export gives it: texts
+    verbatim, integers in decimal digits, floats in their shortest round-trip (repr) form, booleans as
+    true/false, dates, times and datetimes in ISO 8601."""
     if v is None:
         return None
-    if isinstance(v, (dt.date, dt.datetime)):
+    if isinstance(v, bool):
+        return 'true' if v else 'false'
+    if isinstance(v, (dt.date, dt.datetime, dt.time)):
         return v.isoformat()
+    if isinstance(v, float):
+        return repr(v)
     return str(v)
+
+
+class NativeReq(str):
+    """A requested value handed over as the native Python object found in the document (possible in the
+    dictionary way only); as text it is the lexical form of that object."""
+
+    def __new__(cls, native):
+        obj = str.__new__(cls, as_text(native))
+        obj.native = native
+        return obj
+
+
+def native_of(v):
+    if isinstance(v, tuple):
+        return [native_of(x) for x in v]
+    return getattr(v, 'native', v)
+
+
+def has_native(pairs):
+    return any(isinstance(x, NativeReq) for _, _, v in pairs for x in (v if isinstance(v, tuple) else (v,)))
 
 
 # ---------------------------------------------------------------------------------------------
@@ -113,7 +153,8 @@ class Index(object):
         self.nodes = {'Doc': [], 'Sec': [], 'Prop': []}
         for d in docs:
             du = NS + d._id
-            self.nodes['Doc'].append({'uri': du, 'attrs': self._attrs('Doc', d), 'parent': None})
+            self.nodes['Doc'].append({'uri': du, 'attrs': self._attrs('Doc', d), 'parent': None,
+                                      'native': {'date': d._date}})
             stack = [(s, du) for s in list.__iter__(d._sections)]
             while stack:
                 s, parent = stack.pop(0)
@@ -122,7 +163,9 @@ class Index(object):
                                           'top': parent == du})
                 for p in list.__iter__(s._props):
                     self.nodes['Prop'].append({'uri': NS + p._id, 'attrs': self._attrs('Prop', p), 'parent': su,
-                                               'values': list(p._values), 'dtype': p._dtype})
+                                               'values': list(p._values), 'dtype': p._dtype,
+                                               'vlex': [as_text(x) for x in p._values],
+                                               'native': {'uncertainty': p._uncertainty}})
                 stack += [(c, su) for c in list.__iter__(s._sections)]
         self.by_uri = {n['uri']: n for k in KINDS for n in self.nodes[k]}
 
@@ -138,8 +181,13 @@ class Index(object):
         if kinds == ('Doc', 'Prop'):
             return None
 
+        def carries(n, a, v):
+            if a == 'value':            # v: tuple of requested value texts, all of them among the values
+                return all(t in n.get('vlex', ()) for t in v)
+            return n['attrs'].get(a) == v
+
         def match(kind):
-            return [n for n in self.nodes[kind] if all(n['attrs'].get(a) == v for a, v in per[kind])]
+            return [n for n in self.nodes[kind] if all(carries(n, a, v) for a, v in per[kind])]
         if len(kinds) == 1:
             return {(n['uri'],) for n in match(kinds[0])}
         out = set()
@@ -187,14 +235,15 @@ def q_string(pairs, long_words=False):
     for k in KINDS:
         mine = [(a, v) for kk, a, v in pairs if kk == k]
         if mine:
-            parts.append('%s(%s)' % (words[k], ', '.join('%s:%s' % av for av in mine)))
+            parts.append('%s(%s)' % (words[k], ', '.join(
+                '%s:[%s]' % (a, ', '.join(v)) if isinstance(v, tuple) else '%s:%s' % (a, v) for a, v in mine)))
     return ' '.join(parts)
 
 
 def q_dict(pairs):
     d = {}
     for k, a, v in pairs:
-        d.setdefault(k, []).append((a, v))
+        d.setdefault(k, []).append((a, native_of(v)))
     return d
 
 
@@ -508,6 +557,321 @@ def text_sets(tier, seed):
         yield name, list(present) + list(absent), text_docs(present, rnd), rnd
 
 
+# ---------------------------------------------------------------------------------------------
+# value-form dimension: non-text attributes and values in all the forms their content can take
+# ---------------------------------------------------------------------------------------------
+
+INF = float('inf')
+NAN = float('nan')
+
+# (family, slot, content carried by the documents, request texts that no document carries).
+# slot 'uncertainty' / 'date': content of Property.uncertainty / Document.date (a text is handed over as text);
+# slot 'value': (dtype, values) of Properties. Request texts are free of , ( ) : and double quote.
+FORM_FAMILIES = [
+    ('uncertainty-exponent-notation', 'uncertainty',
+     [1e-05, 2.5e16, 1e16, 0.0001, 9.9e-05, 1.2345678901234568e17, 5e-324, 1.7976931348623157e308, 0.5, 1e22, 12,
+      9999999999999998.0, 1.5e-07],
+     ['0.00001', '1E-05', '1e-5', '1.0e-05', '2.5e16', '25000000000000000.0', '10000000000000000.0', '1e16', '1e22',
+      '5e-01', '1.2e+01']),
+    ('uncertainty-zero-inf-nan', 'uncertainty',
+     [0.0, -0.0, 0, INF, -INF, NAN, 1, 1.0],
+     ['+0.0', '-0', 'INF', 'NaN', 'Infinity', '+inf', '0.', '00', '-1']),
+    ('uncertainty-int-or-float', 'uncertainty',
+     [3, 3.0, 10 ** 30, 1e30, -2, -2.0, 2 ** 63, 123456789012345678, 100, 100.0, 2 ** 53 + 1, float(2 ** 53)],
+     ['3.00', '+3', '03', '3.', '1' + '0' * 29 + '1', '-2.00', '1e+2', '2', '9223372036854775807']),
+    ('uncertainty-as-text', 'uncertainty',
+     ['0.5', 0.5, '+1', 1, '007', 7, ' 1 ', '1e-05', 1e-05, '.5', '5.', 5.0, 'n.a.', '1 ', '1E3', 1000.0, '0x10',
+      '1_0', '١'],
+     ['0.50', ' 1', '+1.0', '7.0', '1  ', '5', 'N.A.', '16', '10', '1e3']),
+    ('date-extremes', 'date',
+     [dt.date.min, dt.date.max, dt.date(2020, 5, 17), dt.date(2020, 2, 29), dt.date(1999, 12, 31),
+      dt.date(2000, 1, 1), '2020-05-18', dt.date(1970, 1, 1), dt.date(999, 9, 9)],
+     ['2020-5-17', '20200517', '0001-01-02', '2020-05-17 ', '17.05.2020', '1-01-01', '2020-05-17T00', '10000-01-01',
+      '999-09-09', '2020-05-19', '9999-12-30']),
+    ('int-values', 'value',
+     [('int', [1]), ('int', [0]), ('int', [-3, 7]), ('int', [10 ** 12]), ('int', [10 ** 30]), ('int', [1, 2, 3]),
+      ('int', [2 ** 63, -2 ** 63]), ('float', [1.0]), ('float', [7.0, -3.0]), ('boolean', [True]),
+      ('string', ['1']), ('string', ['01', ' 1'])],
+     ['+1', '1.00', '-0', '1 ', '00', '1000000000000.0', '8', '1e+30', '1e12']),
+    ('float-values', 'value',
+     [('float', [1.5]), ('float', [0.0]), ('float', [-0.0]), ('float', [1e-09]), ('float', [1e-05, 2.5e16]),
+      ('float', [0.30000000000000004, -2.25]), ('float', [3.0]), ('int', [3]), ('float', [INF, -INF]),
+      ('float', [NAN]), ('float', [1e16, 1e22, 0.0001]), ('string', ['1e-05']), ('string', ['inf']),
+      ('float', [5e-324, 1.7976931348623157e308])],
+     ['1.50', '1e-9', '0.000000001', '0.3', '-0', '.5', '1E-05', '2.5e16', '1e-5', 'INF', 'NaN', '+inf',
+      '10000000000000000.0']),
+    ('boolean-values', 'value',
+     [('boolean', [True]), ('boolean', [False]), ('boolean', [True, False]), ('boolean', [False, False]),
+      ('int', [1]), ('int', [0]), ('string', ['true']), ('string', ['True']), ('string', ['yes', 'no']),
+      ('string', ['f'])],
+     ['TRUE', 'False', 'FALSE', 'T', 'y', 'on', 't', 'tru']),
+    ('date-values', 'value',
+     [('date', [dt.date.min]), ('date', [dt.date.max]), ('date', [dt.date(2020, 1, 2)]),
+      ('date', [dt.date(1999, 12, 31), dt.date(2000, 1, 1)]), ('date', [dt.date(2020, 2, 29)]),
+      ('datetime', [dt.datetime(2020, 1, 2, 3, 4, 5)]), ('datetime', [dt.datetime.min]),
+      ('datetime', [dt.datetime.max.replace(microsecond=0)]), ('time', [dt.time(0, 0, 0)]),
+      ('time', [dt.time(23, 59, 59)]), ('string', ['2020-01-02']), ('string', ['2020-01-02T03'])],
+     ['2020-1-2', '20200102', '0001-01-02', '2020-01-02T', '9999-12-30', '2020-01-02 ', '02.01.2020']),
+]
+
+# labels of a requested non-text content, most unusual first
+FORM_FEATURES = ['surrounding-blanks', 'exponent-notation', 'inf-or-nan', 'signed-zero', 'explicit-plus-sign',
+                 'leading-zeros', 'very-large-integer', 'integer-valued-decimal', 'boolean-spelling',
+                 'date-extreme', 'date-like', 'decimal', 'integer', 'text']
+BOOL_WORDS = {'true', 'false', 't', 'f', 'yes', 'no', 'y', 'n', 'on', 'off', 'tru'}
+
+
+def form_label(t):
+    """What kind of spelling the request text t is (syntactic, independent of any document)."""
+    s = t.strip()
+    if t != s or not s:
+        return 'surrounding-blanks'
+    low = s.lower()
+    if low.lstrip('+-') in ('inf', 'infinity', 'nan'):
+        return 'inf-or-nan'
+    if re.fullmatch(r'[+-]?(\d+\.?\d*|\.\d+)[eE][+-]?\d+', s):
+        return 'exponent-notation'
+    if re.fullmatch(r'[+-](0+\.?0*|\.0+)', s):
+        return 'signed-zero'
+    if re.fullmatch(r'\+(\d+\.?\d*|\.\d+)', s):
+        return 'explicit-plus-sign'
+    if re.fullmatch(r'-?0\d+(\.\d*)?', s):
+        return 'leading-zeros'
+    if re.fullmatch(r'-?\d{19,}', s):
+        return 'very-large-integer'
+    if re.fullmatch(r'-?\d+\.0*', s):
+        return 'integer-valued-decimal'
+    if re.fullmatch(r'-?\d+', s):
+        return 'integer'
+    if re.fullmatch(r'-?(\d+\.\d+|\.\d+)', s):
+        return 'decimal'
+    if low in BOOL_WORDS:
+        return 'boolean-spelling'
+    m = re.match(r'(\d{1,5})-\d{1,2}-\d{1,2}', s)
+    if m:
+        return 'date-extreme' if int(m.group(1)) in (1, 9999) else 'date-like'
+    return 'text'
+
+
+def form_feature(pairs):
+    """Stable label of a query of the value-form dimension: slot and spelling of its most unusual non-text
+    request; 'native-<type>:' in front when that request is handed over as a Python object."""
+    best = None
+    for k, a, v in pairs:
+        if a not in ('uncertainty', 'date', 'value', 'id'):
+            continue
+        for x in (v if isinstance(v, tuple) else (v,)):
+            lab = 'id' if a == 'id' else form_label(x)
+            rank = len(FORM_FEATURES) if a == 'id' else FORM_FEATURES.index(lab)
+            nat = 'native-%s:' % type(x.native).__name__ if isinstance(x, NativeReq) else ''
+            cand = (rank, '%s:%s%s' % (a, nat, lab))
+            if best is None or cand < best:
+                best = cand
+    return best[1] if best else 'text-attributes-only'
+
+
+def same_number(a, b):
+    try:
+        fa, fb = float(a), float(b)
+    except ValueError:
+        return False
+    return fa == fb or (fa != fa and fb != fb)
+
+
+def form_twins(v, texts):
+    """The other request texts of the family, the most easily confused first: other spellings of the same number,
+    blank/case variants, texts containing each other."""
+    def rank(u):
+        if same_number(u, v):
+            return 0
+        if u.strip().casefold() == v.strip().casefold():
+            return 1
+        if u.strip() in v or v.strip() in u:
+            return 2
+        return 3
+    return sorted((u for u in texts if u != v), key=lambda u: (rank(u), texts.index(u)))
+
+
+FORM_NAMES = ['a', 'ab', 'p', 'Contrast']
+FORM_UNITS = [None, 'mV', 's', '%']
+
+
+def form_docs(slot, present, rnd):
+    """Small document set carrying every content of the family at least once, most of them twice (at different
+    places), next to objects without such content."""
+    docs = []
+    with h.quiet():
+        if slot == 'date':
+            for i, d in enumerate(list(present) + [None, present[2]]):
+                doc = odml.Document(author=['me', 'Ann B.', None][i % 3], version=['1.0', 'v2'][i % 2], date=d)
+                sec = odml.Section(name=['rec', 'stim'][(i // 2) % 2], type='t', parent=doc)
+                odml.Property(name='p', values=[i], parent=sec)
+                if i % 3 == 0:
+                    odml.Section(name='stim2', type='t', parent=doc)
+                docs.append(doc)
+            return docs
+        carriers = list(present) + list(present[::2]) + [None, None]
+        rnd.shuffle(carriers)
+        secs = []
+        for di in range(2):
+            doc = odml.Document(author=['me', 'Ann B.'][di], version='1.0')
+            for si in range(2):
+                sec = odml.Section(name=['rec', 'stim'][si], type=['t', 'setup/daq'][di], parent=doc)
+                secs.append(sec)
+                if si == di:
+                    secs.append(odml.Section(name='sub', type='t', parent=sec))
+            docs.append(doc)
+        for i, c in enumerate(carriers):
+            sec = secs[i % len(secs)]
+            name = FORM_NAMES[(i // len(secs) + i) % len(FORM_NAMES)]
+            while name in [p._name for p in list.__iter__(sec._props)]:
+                name += 'x'
+            unit = FORM_UNITS[(i + i // 4) % len(FORM_UNITS)]
+            if slot == 'uncertainty':
+                # handed to the constructor as it is; every second text goes through the setter as well, which
+                # may turn it into a number or refuse it
+                prop = odml.Property(name=name, values=[1.5], parent=sec, unit=unit, uncertainty=c)
+                if isinstance(c, str) and i % 2 == 1:
+                    try:
+                        prop.uncertainty = c
+                    except ValueError:
+                        pass
+            else:
+                if c is None:
+                    odml.Property(name=name, parent=sec, unit=unit)
+                else:
+                    odml.Property(name=name, dtype=c[0], values=list(c[1]), parent=sec, unit=unit,
+                                  uncertainty=[None, 0.5][i % 2])
+    return docs
+
+
+def graph_forms(g, uri, pred):
+    from rdflib import URIRef
+    return sorted(str(o) for o in g.objects(URIRef(uri), URIRef(NS + pred)))
+
+
+def graph_values(g, uri):
+    from rdflib import URIRef, RDF
+    out = []
+    for seq in g.objects(URIRef(uri), URIRef(NS + 'hasValue')):
+        for pred, obj in g.predicate_objects(seq):
+            m = re.match(re.escape(str(RDF)) + r'_(\d+)$', str(pred))
+            if m:
+                out.append((int(m.group(1)), str(obj)))
+    return [t for _, t in sorted(out)]
+
+
+def adopt_exported_forms(idx, g):
+    """The search is about the export as it is: where the lexical form found in the graph (read with rdflib, not
+    with the library) is not the one as_text expects, the graph's form is what a node 'carries'. -> number of
+    such differences (they concern the export, another property, and are not flagged here)."""
+    n = 0
+    for kind, attr in (('Prop', 'uncertainty'), ('Doc', 'date')):
+        for nd in idx.nodes[kind]:
+            have = graph_forms(g, nd['uri'], ATTRS[kind][attr][1])
+            want = [] if nd['attrs'][attr] in (None, '') else [nd['attrs'][attr]]
+            if have != want and len(have) <= 1:
+                nd['attrs'][attr] = have[0] if have else None
+                n += 1
+    for nd in idx.nodes['Prop']:
+        have = graph_values(g, nd['uri'])
+        if sorted(have) != sorted(nd['vlex']):
+            nd['vlex'] = have
+            n += 1
+    return n
+
+
+def form_sets(tier, seed):
+    """-> (family, slot, documents, the family's random source, texts no document is meant to carry)"""
+    for name, slot, present, absent in FORM_FAMILIES:
+        rnd = random.Random('form-%s-%d' % (name, seed))
+        yield name, slot, form_docs(slot, present, rnd), rnd, list(absent) + [x for x in present
+                                                                              if isinstance(x, str)]
+
+
+def form_requests(idx, slot, extra):
+    """-> (request texts: every exported form of the slot's content in the documents + the extra texts; native
+    requests: the Python objects carrying that content), both restricted to what a query can express."""
+    texts, natives = [], []
+
+    def add(native, text):
+        if text is None or not usable_q(text) or '\n' in text or '\\' in text:
+            return
+        if text not in texts:
+            texts.append(text)
+        if not isinstance(native, str) and as_text(native) == text and \
+                not any(type(x.native) is type(native) and x == text for x in natives):
+            natives.append(NativeReq(native))
+    if slot == 'value':
+        for nd in idx.nodes['Prop']:
+            if len(nd['vlex']) == len(nd['values']):
+                for native, text in zip(nd['values'], nd['vlex']):
+                    add(native, text)
+    else:
+        kind = 'Doc' if slot == 'date' else 'Prop'
+        for nd in idx.nodes[kind]:
+            add(nd['native'][slot], nd['attrs'][slot])
+    for t in extra:
+        if usable_q(t) and t not in texts:
+            texts.append(t)
+    return texts, natives
+
+
+def gen_form_queries(idx, slot, texts, natives, rnd, quick):
+    """Queries of the value-form dimension: (variant, pairs)."""
+    kind = 'Doc' if slot == 'date' else 'Prop'
+
+    def req(t):
+        return (kind, slot, (t,) if slot == 'value' else t)
+    carried = {t for nd in idx.nodes[kind] for t in (nd['vlex'] if slot == 'value' else [nd['attrs'][slot]])}
+    for t in texts:
+        yield ('carried-form' if t in carried else 'form-no-node-carries'), [req(t)]
+    for t in natives:
+        yield 'native-object', [req(t)]
+    # with further attributes of the same node; then the form replaced by its most similar twins
+    others = {'Doc': ['author', 'version'], 'Prop': ['name', 'unit', 'dtype']}[kind]
+    nodes = [nd for nd in idx.nodes[kind] if (nd['vlex'] if slot == 'value' else nd['attrs'][slot])]
+    nodes = [nd for nd in nodes if all(t in texts for t in (nd['vlex'] if slot == 'value' else [nd['attrs'][slot]]))]
+    for nd in rnd.sample(nodes, min(len(nodes), 2 if quick else 10)):
+        have = [a for a in others if nd['attrs'][a] is not None]
+        rnd.shuffle(have)
+        base = [(kind, a, nd['attrs'][a]) for a in sorted(have[:rnd.choice([1, 1, 2])])]
+        t = rnd.choice(nd['vlex']) if slot == 'value' else nd['attrs'][slot]
+        yield 'all-of-one-node', base + [req(t)]
+        for u in form_twins(t, texts)[:1 if quick else 3]:
+            yield 'form-replaced-by-twin', base + [req(u)]
+        nat = [x for x in natives if x == t]
+        if nat:
+            yield 'native-object', base + [req(nat[0])]
+    if slot == 'value':
+        # several requested values: all of one Property (hit), one of them from another Property
+        multi = [nd for nd in nodes if len(set(nd['vlex'])) > 1 and all(x == x.strip() for x in nd['vlex'])]
+        for nd in multi[:2 if quick else 8]:
+            two = tuple(sorted(set(nd['vlex']))[:2])
+            yield 'all-of-one-node', [(kind, slot, two)]
+            yield 'all-of-one-node', [(kind, slot, two[::-1])]
+            stranger = [t for t in texts if t not in nd['vlex'] and t == t.strip()]
+            if stranger:
+                yield 'one-value-of-another-node', [(kind, slot, (two[0], rnd.choice(stranger)))]
+    # across kinds, related by direct containment
+    if slot == 'date':
+        for nd in rnd.sample(nodes, min(len(nodes), 2 if quick else 6)):
+            mine = [s for s in idx.nodes['Sec'] if s['parent'] == nd['uri']]
+            s = rnd.choice(mine)
+            t = nd['attrs'][slot]
+            yield 'related', [req(t), ('Sec', 'name', s['attrs']['name'])]
+            yield 'form-replaced-by-twin', [req(form_twins(t, texts)[0]), ('Sec', 'name', s['attrs']['name'])]
+    else:
+        for nd in rnd.sample(nodes, min(len(nodes), 2 if quick else 6)):
+            s = idx.by_uri[nd['parent']]
+            t = rnd.choice(nd['vlex']) if slot == 'value' else nd['attrs'][slot]
+            pairs = [('Sec', 'name', s['attrs']['name']), req(t)]
+            if s['top'] and rnd.random() < 0.5:
+                pairs.insert(0, ('Doc', 'author', idx.by_uri[s['parent']]['attrs']['author']))
+            yield 'related', pairs
+            yield 'form-replaced-by-twin', pairs[:-1] + [req(form_twins(t, texts)[0])]
+
+
 def run_queries(tier, seed):
     col = h.Collector('C20.queries',
                       rule='document sets of 1-3 generated documents (<=3 levels, shared attribute values; every '
@@ -523,8 +887,16 @@ def run_queries(tier, seed):
                            'every text (carried or absent twin) x attribute (quick: one attribute per text and '
                            'kind), 2-3 attributes of a node and the same with one value replaced by its most '
                            'similar twins, cross-kind chains likewise; x {string with short or long kind word, '
-                           'dict}; class = (family, text label, kinds, attributes, variant, way, min(#rows,2))'
-                           % ', '.join(f[0] for f in TEXT_FAMILIES),
+                           'dict}; class = (family, text label, kinds, attributes, variant, way, min(#rows,2)). '
+                           'Value-form dimension: per family of non-text content (%s) one document set carrying '
+                           'every content at least once; a node carries the lexical form of its content in the '
+                           'export; queries: every carried form and every other spelling of the family as text '
+                           '(quick: alternately string / dict), every carried content as Python object in the '
+                           'dict, 1-2 further attributes of a node plus the form / its most similar other '
+                           'spellings, two values of one Property / one of another, Sec+Prop, Doc+Sec+Prop, '
+                           'Doc+Sec chains; class = (family, slot:spelling label, kinds, attributes, variant, '
+                           'way, min(#rows,2))'
+                           % (', '.join(f[0] for f in TEXT_FAMILIES), ', '.join(f[0] for f in FORM_FAMILIES)),
                       exhaustive=False)
     quick = tier == 'quick'
     n_sets = 5 if quick else 24
@@ -537,18 +909,21 @@ def run_queries(tier, seed):
         if counts[key] <= 5:
             col.fail(check=check, cls=cls, witness=witness, detail=detail)
 
-    def check_query(set_id, n_docs, g, idx, variant, pairs, fam=None, fam_name=None, long_words=False):
+    def check_query(set_id, n_docs, g, idx, variant, pairs, fam=None, fam_name=None, long_words=False,
+                    feature=None, ways=('str', 'dict')):
         expected = idx.evaluate(pairs)
         if expected is None:
             return
         kinds = '+'.join(kk for kk in KINDS if any(x[0] == kk for x in pairs))
         attrs = ','.join('%s.%s' % (x[0], x[1]) for x in pairs)
-        feature = feature_of(pairs, fam)
-        for way in ('str', 'dict'):
+        feature = feature or feature_of(pairs, fam)
+        for way in ways:
             if way == 'str' and any('\n' in v for _, _, v in pairs):
                 continue    # the one-line query syntax is not claimed to carry line breaks
+            if way == 'str' and has_native(pairs):
+                continue    # a Python object can only be handed over in the dictionary
             qs = q_string(pairs, long_words)
-            if fam is None:
+            if fam_name is None:
                 col.case(cls_key=(kinds, attrs, variant, way, min(len(expected), 2)), sample='%s [%s]' % (qs, way))
             else:
                 col.case(cls_key=(fam_name, feature, kinds, attrs, variant, way, min(len(expected), 2)),
@@ -646,6 +1021,28 @@ def run_queries(tier, seed):
         for qi, (variant, pairs) in enumerate(queries):
             check_query('text:' + fam_name, len(docs), g, idx, variant, pairs, fam=texts, fam_name=fam_name,
                         long_words=(qi % 3 == 2))
+
+    # ---- value-form dimension
+    adopted = 0
+    for f, (fam_name, slot, docs, frnd, extra) in enumerate(form_sets(tier, seed)):
+        g = export(docs)
+        if g is None:
+            fail('C20.queries/export', {'clause': 'export', 'feature': 'raises'}, {'set': 'form:' + fam_name},
+                 'export raised')
+            continue
+        idx = Index(docs)
+        adopted += adopt_exported_forms(idx, g)
+        texts, natives = form_requests(idx, slot, extra)
+        for qi, (variant, pairs) in enumerate(gen_form_queries(idx, slot, texts, natives, frnd, quick)):
+            ways = ('str', 'dict')
+            if quick and len(pairs) == 1:
+                ways = ways[(qi + seed) % 2:][:1]       # quick: a single request alternately as string / dictionary
+            if quick and variant == 'native-object' and len(pairs) == 1 and (qi + seed) % 2 and \
+                    form_label(pairs[0][2] if slot != 'value' else pairs[0][2][0]) in ('integer', 'decimal', 'date-like'):
+                continue                                # quick: half of the plainly spelled native objects
+            check_query('form:' + fam_name, len(docs), g, idx, variant, pairs, fam_name=fam_name,
+                        long_words=(qi % 4 == 3), feature=form_feature(pairs), ways=ways)
+    col.rule += ' [value-form sets: %d exported forms differ from the expected lexical form and were adopted]' % adopted
     return col.result()
 
 
@@ -657,7 +1054,13 @@ PRED2ATTR = {(KIND_VAR[k], pred): (k, a) for k in KINDS for a, (_, pred) in ATTR
 LINE = re.compile(r'^\?([dsp]) odml:(\w+) "(.*)" \.$')
 STRUCT = {'?d rdf:type odml:Document .', '?d odml:hasSection ?s .', '?s rdf:type odml:Section .',
           '?s odml:hasProperty ?p .', '?p rdf:type odml:Property .'}
-LABEL = {'Document': 'd', 'Section': 's', 'Property': 'p'}
+LABEL = {'Document': 'd', 'Section': 's', 'Property': 'p', 'Bag URI': 'v'}
+# attributes exported as typed literals are compared by lexical form, the id is part of the node name, the values
+# are the members of a sequence node
+BIND = re.compile(r'^\?([dsp]) odml:(\w+) \?(\w+) \.$')
+FILT = re.compile(r'^FILTER \(str\(\?(\w+)\) = "(.*)"\) \.$')
+MEMB = re.compile(r'^\?v \?member_(\d+) \?value_(\d+) \.$')
+VALUE_STRUCT = {'?p odml:hasValue ?v .', '?v rdf:type rdf:Seq .'}
 
 
 ECHAR = {'t': '\t', 'n': '\n', 'r': '\r', 'b': '\b', 'f': '\f', '"': '"', "'": "'", '\\': '\\'}
@@ -687,11 +1090,35 @@ def parse_output(out):
         qtext, rest = b.split('}\n', 1)
         pairs = set()
         used = set()
+        helpers, vals = {}, {}
         for line in qtext.split('\n'):         # not splitlines(): a requested text may hold other separators
             if line == '':
                 continue
             if line in STRUCT:
                 used |= set(re.findall(r'\?([dsp]) ', line))
+                continue
+            if line in VALUE_STRUCT:
+                used |= {'p', 'v'}
+                continue
+            if MEMB.match(line):
+                continue
+            m = BIND.match(line)
+            if m and (m.group(1), m.group(2)) in PRED2ATTR:
+                helpers[m.group(3)] = PRED2ATTR[(m.group(1), m.group(2))]
+                used.add(m.group(1))
+                continue
+            m = FILT.match(line)
+            if m:
+                var, text = m.group(1), sparql_unescape(m.group(2))
+                if var in helpers:
+                    pairs.add(helpers[var] + (text,))
+                elif var in ('d', 's', 'p') and text.startswith(NS):
+                    pairs.add(({v: k for k, v in KIND_VAR.items()}[var], 'id', text[len(NS):]))
+                    used.add(var)
+                elif re.match(r'value_\d+$', var):
+                    vals[int(var[6:])] = text
+                else:
+                    raise ValueError('unexpected query line %r' % line)
                 continue
             m = LINE.match(line)
             if not m or (m.group(1), m.group(2)) not in PRED2ATTR:
@@ -699,7 +1126,9 @@ def parse_output(out):
             k, a = PRED2ATTR[(m.group(1), m.group(2))]
             pairs.add((k, a, sparql_unescape(m.group(3))))
             used.add(m.group(1))
-        variables = [v for v in 'dsp' if v in used]
+        if vals:
+            pairs.add(('Prop', 'value', tuple(vals[i] for i in sorted(vals))))
+        variables = [v for v in 'dspv' if v in used]
         lines = [x for x in rest.split('\n') if x]
         if len(lines) % len(variables):
             raise ValueError('row lines %d not a multiple of %d variables' % (len(lines), len(variables)))
@@ -735,7 +1164,7 @@ def combo_feature(combo, fam=None):
     return f
 
 
-def check_find(idx, pairs, out, fam=None):
+def check_find(idx, pairs, out, fam=None, featfn=None):
     """Yield (clause, feature, detail) comparing a find() output with the expected report for `pairs`."""
     try:
         reported = parse_output(out)
@@ -743,6 +1172,10 @@ def check_find(idx, pairs, out, fam=None):
         yield 'output-shape', 'unparsable', str(exc)
         return
     given = set(pairs)
+    form_set = featfn is not None
+    if featfn is None:
+        def featfn(combo):
+            return combo_feature(combo, fam)
     sizes = [len(c) for c, _ in reported]
     if sizes != sorted(sizes, reverse=True):
         yield 'most-specific-first', 'order', 'sizes of reported combinations in order: %r' % sizes
@@ -751,11 +1184,14 @@ def check_find(idx, pairs, out, fam=None):
         if not c <= given:
             how = 'spurious'
             for kk, a, v in c - given:
-                near = [gv for gk, ga, gv in given if (gk, ga) == (kk, a)]
+                near = [gv for gk, ga, gv in given if (gk, ga) == (kk, a) and isinstance(gv, str)
+                        and isinstance(v, str)]
                 if any(gv.strip() == v.strip() for gv in near):
                     how = 'given-value-altered(whitespace)'
                 elif any(gv.casefold() == v.casefold() for gv in near):
                     how = 'given-value-altered(letter-case)'
+            if form_set and how == 'spurious':
+                how = 'spurious/' + featfn(sorted(given))
             yield 'only-given-combinations', how, 'reported combination %r is not made of the given pairs %r' % (
                 sorted(c), sorted(given))
             continue
@@ -768,13 +1204,13 @@ def check_find(idx, pairs, out, fam=None):
             continue
         key = frozenset(combo)
         if expected and key not in rep:
-            yield 'every-combination-with-hits', combo_feature(combo, fam), \
+            yield 'every-combination-with-hits', featfn(combo), \
                 'combination %r has %d hits but is not reported' % (sorted(combo), len(expected))
         elif not expected and key in rep:
-            yield 'no-combination-without-hits', combo_feature(combo, fam), \
+            yield 'no-combination-without-hits', featfn(combo), \
                 'combination %r has no hit but is reported with %r' % (sorted(combo), sorted(rep[key])[:2])
         elif expected and rep[key] != expected:
-            yield 'combination-exact-nodes', combo_feature(combo, fam), \
+            yield 'combination-exact-nodes', featfn(combo), \
                 'combination %r: expected %d rows, reported %d' % (sorted(combo), len(expected), len(rep[key]))
 
 
@@ -791,7 +1227,7 @@ def fuzzy_dict(attrs, terms):
     d = {}
     for k, a in attrs:
         d.setdefault(k, []).append(a)
-    d['Search'] = list(terms)
+    d['Search'] = [native_of(t) for t in terms]
     return d
 
 
@@ -806,7 +1242,15 @@ def run_fuzzy(tier, seed):
                            'of the text families of C20.queries): match mode with 1-3 pairs of a containment chain, '
                            'one value replaced by its most similar twin in every second search; fuzzy mode with '
                            '1-2 attributes and a text of the family alone or together with its most similar twin '
-                           '(thorough: every text); class additionally (family, text label). A fuzzy search given '
+                           '(thorough: every text); class additionally (family, text label). Value-form dimension '
+                           '(document sets of the form families of C20.queries): match mode with the form (text, or '
+                           'Python object in the dict) alone / with a text attribute / the id of a node carrying '
+                           'it / the name of the related Section, also as value:[..] (quick: every 8th request); '
+                           'fuzzy mode with uncertainty or date as the only attribute and every form as the only '
+                           'term (quick: alternately string / dict), and with a second attribute (name/author, '
+                           'Section name, id) and a second term (a text of a carrying node, its id, the most '
+                           'similar other spelling) (quick: every 8th); class additionally (family, slot:spelling '
+                           'label). A fuzzy search given '
                            'as STRING is only evaluated for terms without leading/trailing whitespace (the term '
                            'list "a, b" cannot express them)',
                       exhaustive=False)
@@ -827,14 +1271,17 @@ def run_fuzzy(tier, seed):
     def clean(v):
         return usable_q(v) and '\\' not in v and '\n' not in v
 
-    def do_match(set_id, g, idx, pairs, fam=None, fam_name=None, long_words=False):
+    def do_match(set_id, g, idx, pairs, fam=None, fam_name=None, long_words=False, featfn=None,
+                 ways=('str', 'dict')):
         n_hits = sum(1 for c in subsets(pairs) if idx.evaluate(c))
-        for way in ('str', 'dict'):
+        for way in ways:
+            if way == 'str' and has_native(pairs):
+                continue    # a Python object can only be handed over in the dictionary
             qs = q_string(pairs, long_words)
             key = ('match', way, tuple(sorted({x[0] for x in pairs})), tuple((x[0], x[1]) for x in pairs),
                    len(pairs), min(n_hits, 3))
-            if fam is not None:
-                key += (fam_name, feature_of(pairs, fam))
+            if fam_name is not None:
+                key += (fam_name, featfn(pairs) if featfn else feature_of(pairs, fam))
             col.case(cls_key=key, sample='match %s [%s]' % (qs if fam is None else repr(qs), way))
             wit = {'set': set_id, 'tier': tier, 'seed': seed, 'mode': 'match', 'way': way,
                    'query': qs if way == 'str' else repr(q_dict(pairs))}
@@ -843,24 +1290,27 @@ def run_fuzzy(tier, seed):
             else:
                 st, out = h.call(lambda: FuzzyFinder().find(mode='match', graph=g, q_params=q_dict(pairs)))
             if st == 'exc':
-                fail('C20.fuzzy/never-raises', {'clause': 'never-raises', 'feature': 'match'}, wit,
-                     'find raised %r' % (out,))
+                fail('C20.fuzzy/never-raises', {'clause': 'never-raises',
+                                                'feature': 'match' if featfn is None else 'match/' + featfn(pairs)},
+                     wit, 'find raised %r' % (out,))
                 continue
             seen = set()
-            for clause, feature, detail in check_find(idx, pairs, out, fam):
+            for clause, feature, detail in check_find(idx, pairs, out, fam, featfn):
                 if (clause, feature) not in seen:
                     seen.add((clause, feature))
                     fail('C20.fuzzy/%s' % clause, {'clause': clause, 'feature': feature}, wit, detail)
 
-    def do_fuzzy(set_id, g, idx, attrs, terms, fam=None, fam_name=None):
+    def do_fuzzy(set_id, g, idx, attrs, terms, fam=None, fam_name=None, featfn=None, ways=('str', 'dict')):
         pairs = sorted((kk, a, t) for kk, a in attrs for t in terms)
         n_hits = sum(1 for c in subsets(pairs) if idx.evaluate(c))
-        for way in ('str', 'dict'):
+        for way in ways:
             if way == 'str' and any(t != t.strip() or not t.strip() for t in terms):
                 continue    # not expressible: the terms of 'HAVING a, b' are separated by comma and blank
+            if way == 'str' and has_native(pairs):
+                continue
             key = ('fuzzy', way, tuple(sorted({x[0] for x in attrs})), tuple(attrs), len(pairs), min(n_hits, 3))
-            if fam is not None:
-                key += (fam_name, feature_of(pairs, fam))
+            if fam_name is not None:
+                key += (fam_name, featfn(pairs) if featfn else feature_of(pairs, fam))
             fs = fuzzy_string(attrs, terms)
             col.case(cls_key=key, sample='%s [%s]' % (fs if fam is None else repr(fs), way))
             wit = {'set': set_id, 'tier': tier, 'seed': seed, 'mode': 'fuzzy', 'way': way,
@@ -871,11 +1321,16 @@ def run_fuzzy(tier, seed):
                 st, out = h.call(lambda: FuzzyFinder().find(mode='fuzzy', graph=g,
                                                             q_params=fuzzy_dict(attrs, terms)))
             if st == 'exc':
-                fail('C20.fuzzy/never-raises', {'clause': 'never-raises', 'feature': 'fuzzy'}, wit,
+                feat = 'fuzzy'
+                if featfn is not None:
+                    feat = 'fuzzy/' + featfn(pairs)
+                    if len({type(native_of(t)) for t in terms}) > 1:
+                        feat = 'fuzzy/terms-of-several-python-types'
+                fail('C20.fuzzy/never-raises', {'clause': 'never-raises', 'feature': feat}, wit,
                      'find raised %r' % (out,))
                 continue
             seen = set()
-            for clause, feature, detail in check_find(idx, pairs, out, fam):
+            for clause, feature, detail in check_find(idx, pairs, out, fam, featfn):
                 if (clause, feature) not in seen:
                     seen.add((clause, feature))
                     fail('C20.fuzzy/%s' % clause, {'clause': clause, 'feature': feature}, wit, detail)
@@ -915,6 +1370,72 @@ def run_fuzzy(tier, seed):
                 ok = [u for u in tw if u == u.strip()] if texts[ti] == texts[ti].strip() else []
                 terms.append((ok or tw)[0])
             do_fuzzy('text:' + fam_name, g, idx, attrs, terms, fam=texts, fam_name=fam_name)
+
+    # ---------------------------------------------------------------------- value-form dimension
+    for f, (fam_name, slot, docs, frnd, extra) in enumerate(form_sets(tier, seed)):
+        g = export(docs)
+        if g is None:
+            continue
+        idx = Index(docs)
+        adopt_exported_forms(idx, g)
+        texts, natives = form_requests(idx, slot, extra)
+        kind = 'Doc' if slot == 'date' else 'Prop'
+        second = 'author' if kind == 'Doc' else 'name'
+        sid = 'form:' + fam_name
+
+        def carriers(t):
+            return [nd for nd in idx.nodes[kind]
+                    if t in (nd['vlex'] if slot == 'value' else [nd['attrs'][slot]])] or idx.nodes[kind]
+
+        def sec_of(nd):
+            if kind == 'Prop':
+                return idx.by_uri[nd['parent']]
+            return frnd.choice([s for s in idx.nodes['Sec'] if s['parent'] == nd['uri']])
+        reqs = list(texts) + list(natives)
+        for j, t in enumerate(reqs):
+            # ---- match mode: the form alone / with a text attribute or the id of a node carrying it / with the
+            #      name of the Section related to such a node
+            if quick and (j + seed + f) % 8:
+                continue
+            nd = frnd.choice(carriers(t))
+            pairs = [(kind, slot, (t,) if slot == 'value' else t)]
+            how = (j // 8 if quick else j) % 4
+            if how == 1 and nd['attrs'][second] is not None:
+                pairs.append((kind, second, nd['attrs'][second]))
+            elif how == 2:
+                pairs.append(('Sec', 'name', sec_of(nd)['attrs']['name']))
+            elif how == 3:
+                pairs.append((kind, 'id', nd['attrs']['id']))
+            do_match(sid, g, idx, sorted(pairs), fam_name=fam_name, long_words=(j % 5 == 2), featfn=form_feature)
+        if slot == 'value':
+            continue        # 'FIND .. HAVING' has no way to name the values of a Property
+        for j, t in enumerate(reqs):
+            # ---- fuzzy mode: every form once as the only term of the attribute alone (string and dictionary);
+            #      some next to a further attribute and a second term (its most similar twin / a text of the node)
+            ways = ('str', 'dict')
+            if quick and not isinstance(t, NativeReq) and t == t.strip():
+                ways = ways[(j + seed) % 2:][:1]        # quick: alternately as string and as dictionary
+            do_fuzzy(sid, g, idx, [(kind, slot)], [t], fam_name=fam_name, featfn=form_feature, ways=ways)
+            if (j + seed + f) % (8 if quick else 1):
+                continue
+            nd = frnd.choice(carriers(t))
+            how = (j // 8 if quick else j) % 4
+            attrs, terms = [(kind, slot)], [t]
+            if how == 0 and nd['attrs'][second] is not None:
+                attrs.append((kind, second))
+                terms.append(nd['attrs'][second])
+            elif how == 1:
+                attrs.append(('Sec', 'name'))
+                terms.append(sec_of(nd)['attrs']['name'])
+            elif how == 2:
+                attrs.append((kind, 'id'))
+                terms.append(nd['attrs']['id'])
+            else:
+                tw = [u for u in form_twins(t, texts) if (u == u.strip()) == (t == t.strip())]
+                if tw:
+                    terms.append(tw[0])
+            do_fuzzy(sid, g, idx, sorted(attrs), terms, fam_name=fam_name, featfn=form_feature,
+                     ways=('dict', 'str')[(j // 8) % 2:][:1] if quick and not has_native([(0, 0, t)]) else ('str', 'dict'))
 
     for k, docs in doc_sets(tier, seed + 1, n_sets):
         g = export(docs)
